@@ -42,6 +42,8 @@ const (
 	kCommit           // Commit(V) then state.New(root, db, snaps)
 	kCopyC            // Copy(); the program continues on the copy, the original is the bystander
 	kCopyO            // Copy(); the program continues on the original, the copy is the bystander
+	kCap              // snapshot modes only, directly after a Commit/Cap/JournalReload: snapshot.Tree.Cap(committed root, V) on the tree the StateDB uses, then reopen through the tree
+	kJournal          // snapshot modes only, same position: Tree.Journal(root) + snapshot.New(...) reload of the tree from the database (BlockChain.Stop / NewBlockChain), then reopen
 	numKinds
 )
 
@@ -49,6 +51,7 @@ var kindName = [numKinds]string{
 	"AddBalance", "SubBalance", "SetBalance", "SetNonce", "SetCode", "SetState", "Suicide", "CreateAccount",
 	"AddRefund", "SubRefund", "AddLog", "AddAddressToAccessList", "AddSlotToAccessList", "SetTransientState", "AddPreimage",
 	"Snapshot", "RevertToSnapshot", "Finalise", "IntermediateRoot", "Commit+reopen", "Copy>copy", "Copy>orig",
+	"SnapshotCap", "SnapshotJournalReload",
 }
 
 // argument shape per kind: a = address, s = slot, v = value/flag
@@ -56,6 +59,7 @@ var kindArgs = [numKinds]string{
 	"av", "av", "av", "av", "av", "asv", "a", "a",
 	"v", "v", "av", "a", "as", "asv", "v",
 	"", "v", "v", "v", "v", "", "",
+	"v", "",
 }
 
 func (k Kind) isMutator() bool { return k < kSnapshot }
@@ -90,6 +94,8 @@ func (o Op) sigToken() string {
 			return kindName[o.K] + "(true)"
 		}
 		return kindName[o.K] + "(false)"
+	case kCap:
+		return kindName[o.K] + "(" + strconv.Itoa(int(o.V)) + ")"
 	}
 	return kindName[o.K]
 }
